@@ -89,6 +89,7 @@ type SubT struct {
 	Outcome int    `json:"outcome,omitempty"` // 0 ok, 1 error, 2 panic(string), 3 panic(error)
 	Delay   int    `json:"delay,omitempty"` // simulated run time in time units
 	Gated   bool   `json:"gated,omitempty"`
+	CloseInFn bool `json:"closeinfn,omitempty"` // the worker function calls Close() on its own job (must be refused: ErrJobProcessing)
 }
 
 // Sub is one submission (an Add, or one item of an AddAll) with everything
@@ -108,6 +109,8 @@ type Sub struct {
 	Worker      []int // consumer index per execution (C13)
 	Purged      uint64 // seq at which a purge removed it
 	PurgeTask   int    // task that removed it
+	CloseInFnErr string
+	CloseInFnSeq uint64
 	IDSeen      string
 	StatusInFn  string
 	AckIDs      []string
@@ -258,7 +261,9 @@ func (wd *World) cut() {
 func never() bool { return false }
 
 // isCrashedTask: the task belongs to a process incarnation that was killed.
-func (wd *World) isCrashedTask(t *simrt.Task) bool { return simrt.IsFrozen(t) }
+func (wd *World) isCrashedTask(t *simrt.Task) bool {
+	return t.Frozen || (wd.root.crashes > 0 && t.Born < wd.root.crashStep && t.Lib)
+}
 
 var errBoom = errors.New("boom")
 
@@ -276,6 +281,16 @@ func (wd *World) fnBody(j Job[int]) (int, error) {
 	s := wd.root.enter(wd, v, j)
 	if s == nil {
 		return 0, nil
+	}
+	if s.CloseInFn {
+		if c, ok := any(j).(interface{ Close() error }); ok {
+			err := c.Close()
+			s.CloseInFnErr = "nil"
+			if err != nil {
+				s.CloseInFnErr = err.Error()
+			}
+			s.CloseInFnSeq = wd.root.rec.stamp()
+		}
 	}
 	if s.Delay > 0 {
 		simrt.Sleep(time.Duration(s.Delay) * timeUnit)
@@ -585,8 +600,9 @@ type qItem struct {
 }
 
 type lenObs struct {
-	Seq uint64
-	N   int
+	Seq  uint64
+	N    int
+	Task int
 }
 
 type recPQ struct{ *recQ }
@@ -598,7 +614,7 @@ func newRecQ(wd *World, f interface {
 	innerQ
 	Enqueue(item any, priority int) bool
 }) *recQ {
-	r := &recQ{wd: wd, qi: len(wd.qs), serial: wd.root.cfg.Prop == "C04"}
+	r := &recQ{wd: wd, qi: len(wd.qs), serial: wd.root.cfg.Prop == "C04", recLen: wd.root.cfg.Prop == "C15"}
 	if f != nil {
 		r.fifo, r.in = f, f
 	} else {
@@ -689,7 +705,7 @@ func (r *recQ) forget(item any) int {
 func (r *recQ) Len() int {
 	n := r.in.Len()
 	if r.recLen {
-		r.lens = append(r.lens, lenObs{simrt.Step(), n})
+		r.lens = append(r.lens, lenObs{simrt.Step(), n, simrt.CurID()})
 	}
 	return n
 }
